@@ -1406,6 +1406,11 @@ class Engine(object):
                 return [(st, r)]
         if name == "sum" and len(args) == 1 and isinstance(args[0], VTuple) and all(isinstance(i, VInt) for i in args[0].items):
             return [(st, VInt(z3.Sum(*[i.z for i in args[0].items]) if args[0].items else z3.IntVal(0)))]
+        if name in ("max", "min") and len(args) >= 2 and not kwargs and all(isinstance(a, VInt) for a in args):
+            r = args[0].z
+            for a in args[1:]:
+                r = z3.If(a.z > r, a.z, r) if name == "max" else z3.If(a.z < r, a.z, r)
+            return [(st, VInt(r))]
         if name == "abs" and len(args) == 1 and isinstance(args[0], VInt):
             return [(st, VInt(z3.If(args[0].z < 0, -args[0].z, args[0].z)))]
         if name == "int" and len(args) == 1 and isinstance(args[0], (VBool, VInt)):
@@ -2292,6 +2297,21 @@ class Engine(object):
                             outs.append(s)
                         continue
                 raise Unsupported("subscript store")
+            return outs
+        if isinstance(target, ast.Attribute) and self.is_safe(target.value):
+            # obj.attr = v on an uninterpreted object named by an access path: the path now denotes v (what hangs below it is
+            # forgotten) -- the same model as setattr(obj, 'attr', v)
+            outs = []
+            for s, base in self.eval(target.value, st):
+                if isinstance(base, VOpaque) and getattr(base, "path", None):
+                    memo = s.ghost.setdefault("__paths__", {})
+                    slot = base.path + "." + target.attr
+                    for k_ in [k_ for k_ in memo if k_.startswith(slot + ".")]:
+                        del memo[k_]
+                    memo[slot] = v
+                    outs.append(s)
+                else:
+                    raise Unsupported("assignment target Attribute")
             return outs
         raise Unsupported("assignment target %s" % type(target).__name__)
 
